@@ -710,6 +710,18 @@ class Interp:
                     val = self.eval(v.value, env)
                     if isinstance(val, (int, str)) and not isinstance(val, bool) and v.format_spec is None and v.conversion == -1:
                         parts.append(str(val))
+                    elif (val is None or isinstance(val, (int, float, str, bool))) and (v.format_spec is None or isinstance(v.format_spec, ast.JoinedStr)):
+                        # concrete value: the host's own formatting (conversion and format spec evaluated)
+                        spec = self.eval(v.format_spec, env) if v.format_spec is not None else ''
+                        if not isinstance(spec, str):
+                            parts.append(val)
+                            symbolic = True
+                            continue
+                        conv = {-1: lambda x: x, 115: str, 114: repr, 97: ascii}[v.conversion](val)
+                        try:
+                            parts.append(format(conv, spec))
+                        except (ValueError, TypeError) as exc:
+                            raise RaiseSig(type(exc).__name__, (str(exc),), e)
                     else:
                         parts.append(val)
                         symbolic = True
@@ -1000,7 +1012,7 @@ class Interp:
             base = self.eval(f.value, env)
             args = self.eval_args(e, env)
             if e.keywords and not (isinstance(base, tuple) and base and base[0] in ('module', 'hostattr')) and not (isinstance(base, AList) and f.attr == 'sort') \
-                    and not isinstance(base, Sym):
+                    and not isinstance(base, Sym) and not getattr(base, '_host_object', False):
                 self.bad(e, 'keyword arguments in a method call')
             self._kwargs = {}
             for kw in e.keywords:
